@@ -242,7 +242,10 @@ func (b *Broker[T]) Populate(iter *fun.Iterator[T]) fun.Worker {
 
 // Stats provides introspection into the current state of the broker.
 func (b *Broker[T]) Stats(ctx context.Context) BrokerStats {
-	signal := make(chan BrokerStats)
+	// buffered: the closure below runs in the broker's event loop,
+	// which must never block on a caller that has already left
+	// (its context ended after handing the closure over).
+	signal := make(chan BrokerStats, 1)
 	var output BrokerStats
 	select {
 	case <-ctx.Done():
